@@ -138,5 +138,6 @@ PROPS = {
                           "proceeds; replay is exact because the yield-point sequence is a function of plan and code"],
              variant="sched", sanitizers="none (own scheduler + happens-before detector; TSan sees nothing under a serialising scheduler)",
              expect_probes=["scheduled-run", "preempted-inside-library", "ten-or-more-switches"],
-             phases=[{"tag": "sched", "bin": "simcheck", "wrap": [], "share": 1.0, "shrink": 60}]),
+             phases=[{"tag": "sched", "bin": "simcheck", "wrap": [], "share": 0.85, "shrink": 60},
+                     {"tag": "tsan-free-running", "variant": "tsan", "bin": "simcheck", "wrap": [], "share": 0.15, "advisory": True, "tiers": ["thorough"], "workers": 4}]),
 }
